@@ -16,7 +16,8 @@
                  dictionary keys, types, is_init and insertion/iteration order play no role);
      copy        new dict / new sets / new fact and fluent objects (signature dicts are shared: aliasing is
                  outside this value model, see Model/Store.v and the harness' mutation test);
-     serialize   "(:init|:state <fluents joined by blanks>< for every predicate group: blank + facts joined by blanks>)\n".
+     serialize   "(:init|:state <fluents joined by blanks>< for every predicate group: blank + facts, SORTED by their
+                 text, joined by blanks>)\n".
    Definitions only. *)
 From Coq Require Import List Ascii String Bool Arith PrimFloat.
 From Verif Require Import Base.Result Base.Str Base.Sexp Base.PyDict Base.Float.
@@ -121,6 +122,17 @@ Definition pf_copy (f : pfun) : pfun :=
 Definition int_text (x : float) : string :=
   match f_trunc x with Some z => py_int_text z | None => "<not-an-int>" end.
 
+(* ---------- sorted(texts) ---------- *)
+(* Python compares str by code point; on ASCII texts that is the byte order, [String.leb].  An insertion sort: the
+   result is the sorted permutation whatever the algorithm (equal keys are equal texts). *)
+Fixpoint insert_by {A} (key : A -> string) (x : A) (l : list A) : list A :=
+  match l with
+  | [] => [x]
+  | y :: r => if String.leb (key x) (key y) then x :: l else y :: insert_by key x r
+  end.
+Definition sort_by {A} (key : A -> string) (l : list A) : list A := fold_right (insert_by key) [] l.
+Definition sort_strs (l : list string) : list string := sort_by (fun x => x) l.
+
 Section Texts.
   (* str(value) inside the f-string: repr(float) *)
   Variable num_text : float -> string.
@@ -148,16 +160,25 @@ Section Texts.
     if negb (strset_eqb (fact_texts s) (fact_texts t)) then false
     else strset_eqb (fluent_texts s) (fluent_texts t).
 
-  (* _serialize_numeric_fluents, _serialize_predicates, serialize *)
+  (* _serialize_numeric_fluents, _serialize_predicates, serialize (since 3ad2e15 the facts of EACH predicate group are
+     printed in sorted(...) order of their texts; the order of the groups and of the fluents is the dicts' order) *)
   Definition serialize_fluents (s : mstate) : string := join " " (fluent_texts s).
 
   Definition serialize_preds (s : mstate) : string :=
-    fold_left (fun acc grp => acc +++ " " +++ join " " (map gp_untyped (snd grp))) (st_preds s) "".
+    fold_left (fun acc grp => acc +++ " " +++ join " " (sort_strs (map gp_untyped (snd grp)))) (st_preds s) "".
 
   Definition LFs : string := String LF EmptyString.
 
   Definition serialize (s : mstate) : string :=
     "(" +++ (if st_init s then ":init" else ":state") +++ " " +++ serialize_fluents s +++ serialize_preds s +++ ")" +++ LFs.
+
+  (* the same text with every group printed in the order of its list (State.serialize before 3ad2e15; what [serialize]
+     prints for a state whose groups are already in print order: Proofs/C14_Sorted.serialize_sorted) *)
+  Definition serialize_preds_in_order (s : mstate) : string :=
+    fold_left (fun acc grp => acc +++ " " +++ join " " (map gp_untyped (snd grp))) (st_preds s) "".
+
+  Definition serialize_in_order (s : mstate) : string :=
+    "(" +++ (if st_init s then ":init" else ":state") +++ " " +++ serialize_fluents s +++ serialize_preds_in_order s +++ ")" +++ LFs.
 End Texts.
 
 (* copy(): same keys in the same order; every set rebuilt from copies (same elements; iteration order unspecified:
@@ -166,6 +187,12 @@ Definition state_copy (s : mstate) : mstate :=
   {| st_init := st_init s;
      st_preds := map (fun kv => (fst kv, map gp_copy (snd kv))) (st_preds s);
      st_fluents := map (fun kv => (fst kv, pf_copy (snd kv))) (st_fluents s) |}.
+
+(* the state with the facts of every group listed in print order (same dict keys, same order of groups) *)
+Definition sort_facts (s : mstate) : mstate :=
+  {| st_init := st_init s;
+     st_preds := map (fun kv => (fst kv, sort_by gp_untyped (snd kv))) (st_preds s);
+     st_fluents := st_fluents s |}.
 
 (* State(predicates, fluents, is_init) as built by TrajectoryExporter.parse_plan / a refused step: the same dicts *)
 Definition state_with_init (b : bool) (s : mstate) : mstate :=
